@@ -155,7 +155,25 @@ def received_tokens(env, action):
     return out
 
 
+def quoted_text_is_verbatim(chk: Check):
+    """What is between the quotes is the pattern / the value: the quoted-string token must not rewrite it.  Frozen table of the keyword
+    arguments of pp.QuotedString that leave the text alone; the others (escChar strips every backslash -- `\\.` and `\\d` of a regular
+    expression --, escQuote, convertWhitespaceEscapes=..., multiline, endQuoteChar) change what a filter selects"""
+    tree = chk.tree
+    m = tree.mod("cli.filter")
+    allowed = {"unquoteResults": "strips the delimiting quotes only", "quoteChar": "the delimiter itself", "quote_char": "the delimiter itself", "unquote_results": "strips the delimiting quotes only"}
+    n = 0
+    for c in ast.walk(m.tree):
+        if isinstance(c, ast.Call) and (dotted(c.func) or "").split(".")[-1] == "QuotedString":
+            n += 1
+            extra = [k.arg for k in c.keywords if k.arg not in allowed] + (["<positional>"] if len(c.args) > 1 else [])
+            chk.require(not extra, f"cli.filter:quotedString:verbatim text ({src(c.args[0]) if c.args else '?'})",
+                        f"`{src(c)[:80]}` rewrites the quoted text ({extra}): the regular expression / value the user wrote is not the one that is compiled and compared", chk.loc(m, c))
+    chk.min_instances(n, 1, "pp.QuotedString tokens of the filter grammar")
+
+
 def r2_token_typing(chk: Check):
+    quoted_text_is_verbatim(chk)
     tree = chk.tree
     env, classes = grammar_env(tree)
     m = tree.mod("cli.filter")
